@@ -321,6 +321,7 @@ STRENGTHENED6 = {
 }
 
 NEEDS7 = {
+ "C01/b": "FIN honoured although the last octet of its segment was trimmed at the window edge (`segment_end - 1 > window_end`): a FIN-bearing segment that overshoots the believed window by exactly one octet (window-scale rounding with odd free space, ACKs lost) - Finished reported one octet short",
  "C02/a": "acceptable-ACK upper bound lowered to the highest sequence number recorded as sent: the ACK of an accepted zero-window probe is rejected with a challenge ACK before the window field is read - the sender probes for ever after one lost window update",
  "C02/b": "neighbor Cache::fill returns early when the same mapping is already stored: an expired entry can no longer be revived by an ARP reply / NA - after > 60 s of silence the side that speaks first requests for ever",
  "C03/a": "tcp window_end anchored at RCV.NXT instead of last ACK + last window: a segment that overshoots the window while an ACK is still delayed is not trimmed and poll panics",
@@ -361,6 +362,7 @@ NEEDS7 = {
  "C20/b": "PacketAssembler::add rejects offsets beyond the current (growing) buffer: a FRAGN that overtakes FRAG1 on a receiver's first reassembly is dropped",
 }
 STRENGTHENED7 = {
+ "C01/b": "outside what C01's deviation-bounded search can reach (needs dozens of lost ACKs on a 70000-octet exact-fill stream); caught by the C04 receiver BFS (a FIN segment one octet beyond the edge is in its alphabet)",
  "C03/a": "C03 missed it; see DESIGN.md (data follow-ups around the window, frames queued before one poll)",
  "C03/b": "C03 missed it; see DESIGN.md (echoing UDP sockets on the NHC boundary ports)",
  "C04/a": "C04 missed it; configurations with delayed ACKs and keep-alive probes more frequent than the ACK delay",
